@@ -20,6 +20,6 @@ def run(ctx):
     ctx.proof("DispatchVerif.Props.C10", THEOREMS)
     ctx.assumptions += ["the thread-event signal/wait pair delivers the completion to the caller (C05 edge)"]
     runs = [[ctx.seed * 10 + i, 200 if ctx.thorough else 25] for i in range(4 if ctx.thorough else 2)]
-    run_traces(ctx, "tr_apply", runs, "apply", r"explained-by-ApplyP.step (\d+)", "L-trace apply", "apply")
+    run_traces(ctx, "tr_apply", runs, "apply", r"explained-by-ApplyP.step (\d+)", "L-trace apply", "apply", timeout=120)
     ctx.cov["rule"] = ("tr_apply: three client threads issue applies with n from the boundary set onto AUTO / global / serial / concurrent / concurrent->serial / "
                        "concurrent->concurrent targets, nested up to depth 2, barriers racing on the concurrent queue; distinct_nontrivial = da_index / da_todo transitions explained")
